@@ -557,6 +557,13 @@ class HO:
             return False
         if isinstance(key, ast.IfExp):
             return self.total_key(fn, key.body, elems) and self.total_key(fn, key.orelse, elems)
+        if isinstance(key, ast.Call) and not key.keywords and key.args and all(isinstance(a, ast.Constant) for a in key.args):
+            # operator.itemgetter(0, ..) / operator.attrgetter("id", ..): the lambdas they denote
+            d = flow.dump(key.func)
+            if d in ("operator.itemgetter", "itemgetter"):
+                return any(a.value == 0 for a in key.args)
+            if d in ("operator.attrgetter", "attrgetter"):
+                return any(a.value in ("id", "link_id", "vehicle_id", "request_id") for a in key.args)
         if isinstance(key, ast.Attribute):
             return False
         return False
